@@ -35,6 +35,8 @@ type Clause struct {
 type LoopSpec struct {
 	Inv    []Clause
 	Entry  []Clause // asserted when the loop is reached, not part of the invariant
+	Forget []int    // `loop N forget M`: on reaching loop N the invariant facts of the finished loop M are dropped from the hypotheses
+	Keep   []Clause // `loop N keep [label] e`: asserted on reaching the loop and kept as a hypothesis afterwards
 	OnStop []Clause // iterator loops: asserted in the state where the callback has just answered "stop"
 	Decr   *Clause
 }
@@ -574,6 +576,14 @@ func (sp *Specs) loadSpecFile(path, pkgPrefix string, assumed bool) error {
 				ls.Entry = append(ls.Entry, cl)
 			case "on-stop":
 				ls.OnStop = append(ls.OnStop, cl)
+			case "keep":
+				ls.Keep = append(ls.Keep, cl)
+			case "forget":
+				m, err := strconv.Atoi(strings.TrimSpace(cl.Src))
+				if err != nil {
+					return fmt.Errorf("%s:%d: loop N forget M", path, l.ln)
+				}
+				ls.Forget = append(ls.Forget, m)
 			default:
 				return fmt.Errorf("%s:%d: loop clause %q", path, l.ln, f[1])
 			}
